@@ -4,4 +4,4 @@ META = dict(trusted_base=COMMON_TB, assumptions=COMMON_ASSUME + [
 
 
 def items(tier):
-    return contract_items("C09") + [dict(kind="lemma", spec="lemmas.l_c09:first_char")]
+    return contract_items("C09", tier) + [dict(kind="lemma", spec="lemmas.l_c09:first_char")]
